@@ -38,6 +38,24 @@ def register(db):
         raises=[Raises("ValueError", mode="may")],
         modifies=["self.actors", "self.topics_by_queue"], returns="opaque",
     )
+    # ---- _forget_topic (added by the F11 fix): a name that moves to another queue leaves the topic set of its old queue,
+    # and an old queue left without topics is dropped (a worker would otherwise consume everything from it)
+    MOVES = "(name in old(self.actors) and old(self.actors)[name].queue != new_queue)"
+    PAIR = lambda m, q, t: f"({q} in {m} and {t} in {m}[{q}])"     # noqa: E731
+    TBQ, TBQ0 = "self.topics_by_queue", "old(self.topics_by_queue)"
+    db.contract(
+        fn=R + "_forget_topic", serves=["C11"], binds={"name": "str", "new_queue": "str"},
+        ensures={
+            "only_that_pair_goes": f"forall_str(q, forall_str(t, {PAIR(TBQ, 'q', 't')} == ({PAIR(TBQ0, 'q', 't')}"
+                                   f" and not ({MOVES} and q == old(self.actors)[name].queue and t == name))))",
+            "no_queue_left_without_topics": f"forall_str(q, implies(q in {TBQ} and q not in {TBQ0}, False))"
+                                            f" and implies({MOVES} and old(self.actors)[name].queue in {TBQ},"
+                                            f" nonempty({TBQ}[old(self.actors)[name].queue]))",
+        },
+        raises=[], modifies=["self.topics_by_queue"],
+    )
+    SA0 = "old(self.actors)"
+    FORGOTTEN = lambda t: (f"({t} in {SA0} and {t} in router.actors and router.actors[{t}].queue != {SA0}[{t}].queue)")   # noqa: E731
     db.contract(
         fn=R + "include_router", serves=["C11"], binds={"router": "Router"},
         requires=["served(self)", "no_stale(self)", "served(router)", "no_stale(router)"],
@@ -49,10 +67,16 @@ def register(db):
             "served": "served(self)",
             "no_stale": "no_stale(self)",
         },
-        loops={0: LoopInv(header="for (queue_name, topics) in router.topics_by_queue.items()",
+        loops={0: LoopInv(header="for (name, actor) in router.actors.items()",
+                          ghost={"visited": "W"},
+                          invariant={"forgotten_so_far": f"forall_str(q, forall_str(t, {PAIR(TBQ, 'q', 't')} == ({PAIR(TBQ0, 'q', 't')}"
+                                                         f" and not (t in W and {FORGOTTEN('t')} and q == {SA0}[t].queue))))",
+                                     "actors_untouched": "self.actors == old(self.actors)"},
+                          modifies={"self.topics_by_queue": None}),
+               1: LoopInv(header="for (queue_name, topics) in router.topics_by_queue.items()",
                           ghost={"visited": "V", "vars": {"snap_actors": ("map", "snap(self.actors)")}},
-                          invariant={"union_so_far": "forall_str(q, forall_str(t, (q in self.topics_by_queue and t in self.topics_by_queue[q])"
-                                                     " == ((q in old(self.topics_by_queue) and t in old(self.topics_by_queue)[q])"
+                          invariant={"union_so_far": f"forall_str(q, forall_str(t, {PAIR(TBQ, 'q', 't')}"
+                                                     f" == (({PAIR(TBQ0, 'q', 't')} and not ({FORGOTTEN('t')} and q == {SA0}[t].queue))"
                                                      " or (q in V and t in router.topics_by_queue[q]))))",
                                      "actors_fixed": "self.actors == snap_actors"},
                           modifies={"self.topics_by_queue": None})},
